@@ -47,6 +47,17 @@ type c03Viol struct {
 	Types []string
 }
 
+// c03NearMiss is the value with the letters of its path in the other case: equal under a
+// case-insensitive comparison, different as the exact string the statement asks for.
+func c03NearMiss(v string) string {
+	i := strings.Index(v, "//")
+	j := strings.Index(v[i+2:], "/")
+	if i < 0 || j < 0 {
+		return strings.ToUpper(v)
+	}
+	return v[:i+2+j] + strings.ToUpper(v[i+2+j:])
+}
+
 func c03Spec(d c03Dims, cfg int) idp.ResponseSpec {
 	r := idp.DefaultResponse(d.N)
 	switch d.Version {
@@ -62,12 +73,16 @@ func c03Spec(d c03Dims, cfg int) idp.ResponseSpec {
 		r.Destination = idp.Absent
 	case 3:
 		r.Destination = "https://evil.example.com/acs"
+	case 4:
+		r.Destination = c03NearMiss(world.ACS) // differs in letter case only
 	}
 	switch d.Issuer {
 	case 1:
 		r.Issuer = "https://other-idp.example.com/metadata"
 	case 2:
 		r.Issuer = idp.Absent
+	case 3:
+		r.Issuer = c03NearMiss(world.IDPIssuer)
 	}
 	switch d.Status {
 	case 1:
@@ -90,6 +105,8 @@ func c03Spec(d c03Dims, cfg int) idp.ResponseSpec {
 			a.Issuer = "https://other-idp.example.com/metadata"
 		case 2:
 			a.Issuer = idp.Absent
+		case 3:
+			a.Issuer = c03NearMiss(world.IDPIssuer)
 		}
 		switch d.A[i][1] {
 		case 1:
@@ -106,6 +123,8 @@ func c03Spec(d c03Dims, cfg int) idp.ResponseSpec {
 			a.Recipient = "https://evil.example.com/acs"
 		case 2:
 			a.Recipient = idp.Absent
+		case 3:
+			a.Recipient = c03NearMiss(world.ACS)
 		}
 		switch d.A[i][3] {
 		case 1:
@@ -137,13 +156,13 @@ func c03Model(d c03Dims, cfg int) []c03Viol {
 	if d.Version != 0 {
 		v = append(v, c03Viol{"Response Version", []string{"SAML version", "Version"}, []string{"ErrInvalidValue", "ErrMissingElement"}})
 	}
-	if d.Dest == 3 {
+	if d.Dest >= 3 {
 		v = append(v, c03Viol{"Response Destination", []string{"Destination"}, []string{"ErrInvalidValue"}})
 	}
 	if d.Issuer == 2 {
 		v = append(v, c03Viol{"Response Issuer absent", []string{"Issuer"}, []string{"ErrMissingElement"}})
 	}
-	if d.Issuer == 1 && issuerConfigured {
+	if (d.Issuer == 1 || d.Issuer == 3) && issuerConfigured {
 		v = append(v, c03Viol{"Response Issuer wrong", []string{"Issuer"}, []string{"ErrInvalidValue"}})
 	}
 	switch d.Status {
@@ -166,7 +185,7 @@ func c03Model(d c03Dims, cfg int) []c03Viol {
 		if a[0] == 2 {
 			v = append(v, c03Viol{pos + "Issuer absent", []string{"Issuer"}, []string{"ErrMissingElement"}})
 		}
-		if a[0] == 1 && issuerConfigured {
+		if (a[0] == 1 || a[0] == 3) && issuerConfigured {
 			v = append(v, c03Viol{pos + "Issuer wrong", []string{"Issuer"}, []string{"ErrInvalidValue"}})
 		}
 		switch a[1] {
@@ -324,14 +343,14 @@ func c03Gen(n int) func(c *mc.Chooser) c03Dims {
 	return func(c *mc.Chooser) c03Dims {
 		d := c03Dims{N: n}
 		d.Version = c.Choose("version", 3)
-		d.Dest = c.Choose("dest", 4)
-		d.Issuer = c.Choose("issuer", 3)
+		d.Dest = c.Choose("dest", 5)
+		d.Issuer = c.Choose("issuer", 4)
 		d.Status = c.Choose("status", 6)
 		for i := 0; i < n; i++ {
 			var a [4]int
-			a[0] = c.Choose(fmt.Sprintf("a%d.issuer", i), 3)
+			a[0] = c.Choose(fmt.Sprintf("a%d.issuer", i), 4)
 			a[1] = c.Choose(fmt.Sprintf("a%d.structure", i), 5)
-			a[2] = c.Choose(fmt.Sprintf("a%d.recipient", i), 3)
+			a[2] = c.Choose(fmt.Sprintf("a%d.recipient", i), 4)
 			a[3] = c.Choose(fmt.Sprintf("a%d.notonorafter", i), 5)
 			d.A = append(d.A, a)
 		}
